@@ -128,6 +128,25 @@ def select_covering(cases, n, needs, seed):
     return pick
 
 
+def heavy_workloads(c, n, seed):
+    """Workloads whose transactions are large relative to MemTableSize (3 x 3000-byte inline values
+    per transaction, 64 KiB memtable): the production code rotates memtable and WAL by itself
+    (ensureRoomForWrite) in the middle of the workload while the flusher is parked, so every later
+    kill point has an un-flushed immutable memtable; a flush near the end adds the kill points
+    inside the flush of a naturally rotated memtable."""
+    pool = generate(c, "heavy-workloads", 40, seed, workers=2, SyncModes="{FALSE}", Drops="{}", Styles="{2}",
+                    KeySets="{{1, 2, 3}, {2, 3, 4}, {1, 3, 4}, {1, 2, 4}}", EnvOps='{"flush"}', MaxEnv=1,
+                    MaxRow=12, HistLen=12)
+    good = [h for h in pool if all(o["op"] in ("commit", "batch") for o in h["ops"][:10])]
+    good.sort(key=lambda h: -sum(1 for o in h["ops"] if o["op"] == "flush"))
+    out = good[:n]
+    if not out:
+        raise Inconclusive("no heavy workload with 10 leading commits generated")
+    for h in out:
+        h["heavy"] = True
+    return out
+
+
 def op_histogram(cases):
     h = {}
     for cs in cases:
@@ -630,7 +649,8 @@ def real_kill_confirm(c, binp, case, result, events, enc=False):
             t = ln.split()
             if t[0] == "done":
                 commit_ts[int(t[1])] = int(t[2])
-        rc, so, se, _ = _run([binp, "checkdir", "-dir", os.path.join(d, "db")] + (["-enc"] if enc else []),
+        rc, so, se, _ = _run([binp, "checkdir", "-dir", os.path.join(d, "db")] + (["-enc"] if enc else []) +
+                             (["-heavy"] if case.get("heavy") else []),
                              timeout=900, env=env)
         if rc != 0 or not so.strip():
             obs = {"panic": "checkdir rc=%s %s" % (rc, se[-800:]), "openErr": ""}
